@@ -4,6 +4,7 @@ package main
 
 import (
 	"context"
+	"encoding/json"
 	"errors"
 	"fmt"
 	"io"
@@ -28,6 +29,7 @@ type opSpec struct {
 	User  string `json:"user,omitempty"`
 	PW    string `json:"pw,omitempty"`
 	Admin bool   `json:"admin,omitempty"`
+	Via   string `json:"via,omitempty"` // "" = agent interface | basic | api  (HTTP frontends through the real mux)
 }
 
 type step struct {
@@ -53,6 +55,7 @@ type opResult struct {
 	Err     string          `json:"err,omitempty"`
 	OK      bool            `json:"ok"`
 	IsAdmin bool            `json:"is_admin,omitempty"`
+	NoAdminInfo bool        `json:"no_admin_info,omitempty"`
 	List    map[string]bool `json:"list,omitempty"`
 }
 
@@ -113,6 +116,7 @@ func upgradesArg(mode string) string {
 // the scheduler (runs inside one bubble)
 
 type sched struct {
+	adminTok string
 	mux     *http.ServeMux
 	e       *agentEnv
 	clock   atomic.Int64
@@ -156,11 +160,18 @@ func (sc *sched) launch(op opSpec) *opResult {
 	st := sc.e.iface
 	var cancel context.CancelFunc
 	ctx := context.Background()
-	if op.Kind == "web-auth-abandon" {
+	if op.Kind == "web-auth-abandon" || op.Via != "" {
 		if sc.mux == nil {
 			sc.mux, _ = newWebHandler(sc.e.iface)
 		}
+	}
+	if op.Kind == "web-auth-abandon" {
 		ctx, cancel = context.WithCancel(ctx)
+	}
+	webPost := func(path, body string) (int, string) {
+		rec := httptest.NewRecorder()
+		sc.mux.ServeHTTP(rec, httptest.NewRequest("POST", path, strings.NewReader(body)))
+		return rec.Code, rec.Body.String()
 	}
 	go func() {
 		r.Call = sc.tick()
@@ -175,17 +186,41 @@ func (sc *sched) launch(op opSpec) *opResult {
 			r.OK = rec.Code == 200
 		case "auth":
 			var ok, adm bool
-			ok, adm, _, err = st.Authenticate(op.User, op.PW)
+			switch op.Via {
+			case "basic":
+				req := httptest.NewRequest("GET", "/basic-auth", nil)
+				req.SetBasicAuth(op.User, op.PW)
+				rec := httptest.NewRecorder()
+				sc.mux.ServeHTTP(rec, req)
+				ok, adm = rec.Code == 200, false
+				r.NoAdminInfo = true
+			case "api":
+				code, body := webPost("/api/authenticate", fmt.Sprintf(`{"username":%q,"password":%q}`, op.User, op.PW))
+				ok = code == 200
+				adm = strings.Contains(body, `"admin":true`)
+			default:
+				ok, adm, _, err = st.Authenticate(op.User, op.PW)
+			}
 			r.OK, r.IsAdmin = ok, adm
 		case "add":
 			err = st.Add(op.User, op.PW, op.Admin)
 			r.OK = err == nil
 		case "update":
-			err = st.Update(op.User, op.PW)
-			r.OK = err == nil
+			if op.Via == "api" && sc.adminTok != "" {
+				code, _ := webPost("/api/update", fmt.Sprintf(`{"session":%q,"username":%q,"newpassword":%q}`, sc.adminTok, op.User, op.PW))
+				r.OK = code == 200
+			} else {
+				err = st.Update(op.User, op.PW)
+				r.OK = err == nil
+			}
 		case "remove":
-			err = st.Remove(op.User)
-			r.OK = err == nil
+			if op.Via == "api" && sc.adminTok != "" {
+				code, _ := webPost("/api/remove", fmt.Sprintf(`{"session":%q,"username":%q}`, sc.adminTok, op.User))
+				r.OK = code == 200
+			} else {
+				err = st.Remove(op.User)
+				r.OK = err == nil
+			}
 		case "setadmin":
 			err = st.SetAdmin(op.User, op.Admin)
 			r.OK = err == nil
@@ -294,6 +329,16 @@ func runSchedule(c schedCase, probes []opSpec) (out schedOutcome) {
 	}
 	defer e.cleanup()
 	sc := &sched{e: e}
+	for _, st := range c.Steps {
+		if st.Op != nil && st.Op.Via == "api" && sc.adminTok == "" {
+			sc.mux, _ = newWebHandler(e.iface)
+			rec := httptest.NewRecorder()
+			sc.mux.ServeHTTP(rec, httptest.NewRequest("POST", "/api/authenticate", strings.NewReader(`{"username":"root","password":"rootpw"}`)))
+			var ar webAuthenticateResponse
+			json.Unmarshal(rec.Body.Bytes(), &ar)
+			sc.adminTok = ar.Session
+		}
+	}
 	out.MaxQueues = map[string]int{}
 	nt := map[string]bool{}
 	for _, st := range c.Steps {
@@ -328,7 +373,7 @@ func runSchedule(c schedCase, probes []opSpec) (out schedOutcome) {
 				}
 			}
 			sc.release()
-		case "advance":
+		case "advance", "advance-parked":
 			time.Sleep(st.D)
 			synctest.Wait()
 		case "settle":
@@ -412,7 +457,7 @@ func applyOp(m mstate, r *opResult) (mstate, bool) {
 	switch op.Kind {
 	case "auth":
 		want := exists && u.pw == op.PW
-		if r.OK != want || (want && r.IsAdmin != u.admin) {
+		if r.OK != want || (want && !r.NoAdminInfo && r.IsAdmin != u.admin) {
 			return nil, false
 		}
 		return m, true
